@@ -2,7 +2,7 @@
    fails to compile if Props/C19.v is weakened, renamed or given other hypotheses. *)
 From Coq Require Import SpecFloat.
 Require Import Base Value Float PrintOptions ParseOptions Utf8 Reader Scan Num NumberOps Parser.
-Require Import RelFramework PositionProofs SourcesAgree.
+Require Import RelFramework PositionProofs SourcesAgree ValidTextProofs TruncProofs.
 Require Import Lexpr.Props.C19.
 
 Check (C19_from_trait_location :
@@ -66,6 +66,21 @@ Check (C19_truncation_partial_slice :
   from_trait ro alpha fast std_parse SrcSlice (bytes_events (p ++ s)) = POk v ->
   (exists v', from_trait ro alpha fast std_parse SrcSlice (bytes_events p) = POk v') \/
   (exists c l cl, from_trait ro alpha fast std_parse SrcSlice (bytes_events p) = PErr (XErr (ESyntax c l cl)) /\
+     (classify_code c = CatEof \/ c = NumberOutOfRange \/ c = InvalidUnicodeCodePoint \/ c = ExpectedOctet \/ c = RecursionLimitExceeded))).
+
+Check (C19_truncation_every_call :
+  forall rest ro alpha fast std_parse fuel s1 s2, tprel rest s1 s2 ->
+  (exists x, fst (next_value ro alpha fast std_parse fuel s2) = PErr x) \/
+  (fst (next_value ro alpha fast std_parse fuel s1) = fst (next_value ro alpha fast std_parse fuel s2) /\
+   tprel rest (snd (next_value ro alpha fast std_parse fuel s1)) (snd (next_value ro alpha fast std_parse fuel s2))) \/
+  (ateof (rd (snd (next_value ro alpha fast std_parse fuel s1))) /\ pokres (fst (next_value ro alpha fast std_parse fuel s1)))).
+
+Check (C19_truncation_partial_str :
+  forall ro alpha fast std_parse (p s : bytes) v,
+  utf8_valid (p ++ s) = true -> utf8_valid p = true ->
+  from_trait ro alpha fast std_parse SrcStr (bytes_events (p ++ s)) = POk v ->
+  (exists v', from_trait ro alpha fast std_parse SrcStr (bytes_events p) = POk v') \/
+  (exists c l cl, from_trait ro alpha fast std_parse SrcStr (bytes_events p) = PErr (XErr (ESyntax c l cl)) /\
      (classify_code c = CatEof \/ c = NumberOutOfRange \/ c = InvalidUnicodeCodePoint \/ c = ExpectedOctet \/ c = RecursionLimitExceeded))).
 
 Check (C19_truncation_nonvacuous :
